@@ -6,6 +6,7 @@ pub mod c02;
 pub mod c03;
 pub mod c04;
 pub mod c05;
+pub mod c06;
 pub mod c08;
 pub mod c09;
 pub mod c10;
@@ -39,6 +40,7 @@ table! {
     "C03" => c03::run, c03::replay;
     "C04" => c04::run, c04::replay;
     "C05" => c05::run, c05::replay;
+    "C06" => c06::run, c06::replay;
     "C08" => c08::run, c08::replay;
     "C09" => c09::run, c09::replay;
     "C10" => c10::run, c10::replay;
